@@ -6,7 +6,7 @@
 -/
 import Spydr.Verilog.RoundTripLeafJ
 import Spydr.Verilog.RoundTripHierI
-import Spydr.Verilog.RoundTripAsgE
+import Spydr.Verilog.RoundTripAsgI
 import Spydr.Verilog.RoundTripDesign
 namespace Spydr.Verilog.Elab
 open Spydr.Verilog
@@ -85,6 +85,7 @@ def whyItem (it : SItem) : Option String :=
     else orElseS (i.conns.findSome? (fun c => orElseS (nameWhy "port" c.1) fun _ =>
       if exprOK c.2 then none else some "expression-tokens")) fun _ =>
     if attrsOK i.attrs then none else some "instance-attribute-tokens"
+  | .asg l r => if atomOK l && atomOK r then none else some "assign-expression-tokens"
 
 def whyTok (m : WModI) : Option String :=
   if !attrsOK m.attrs then some "module-attribute-tokens"
@@ -291,6 +292,40 @@ def reportHierText (n : Text.WNet) : Bool × String :=
               | .leaf lf => if leafOK lf then none else some "leafOK:tokens-of-a-leaf")) fun _ =>
             orElseS (((filePH n m Ps).findSome? pieceWhy).map (fun s => "piece:" ++ s)) fun _ =>
             if !adjOK (filePH n m Ps) then some "adjOK:a-word-runs-into-the-next-piece"
+            else if !Text.isCommentTok ("//netlist name: " ++ Text.fixName n.name) then some "netlist-name-comment"
+            else none
+        (false, "out:" ++ why.getD "unexplained")
+      | _, _ => (false, "out:astOf")
+
+def whyTokA (m : WModA) : Option String :=
+  if !attrsOK m.base.attrs then some "module-attribute-tokens"
+  else orElseS (nameWhy "module" m.base.name) fun _ =>
+    orElseS ((m.base.ports.map (·.name)).findSome? (nameWhy "port")) fun _ =>
+    orElseS (m.sitems.findSome? whyItem) fun _ =>
+    if cleanToks (tokensOfA m) then none else some "comment-or-directive-like-token"
+
+/-- `c04_text_hierA` (hierarchical netlists with assigns, from characters): inside `c04_ast_hierA` plus the text / token /
+    piece clauses -/
+def reportHierTextA (n : Text.WNet) : Bool × String :=
+  match reportHierA n with
+  | (false, why) => (false, why)
+  | (true, _) =>
+    match topOf n with
+    | none => (false, "out:no-top")
+    | some (kT, T) =>
+      let ks := (composeOrder n).drop 1
+      if fragStructHA n T kT ks then (true, "in") else
+      match astOfA n T, (laterA n ks).mapM (astAnyPA n) with
+      | some m, some Ps =>
+        let why : Option String :=
+          if !topTextBA n T then some "topText:empty-parameter-list"
+          else if !(laterA n ks).all (anyTextBA n) then some "anyText:a-later-module(attributes-or-parameters-on-a-primitive,empty-parameter-list)"
+          else orElseS ((whyTokA m.toA).map (fun s => "tokOK:" ++ s)) fun _ =>
+            orElseS (Ps.findSome? (fun P => match P with
+              | .work mm => (whyTokA mm.toA).map (fun s => "tokOK:" ++ s)
+              | .leaf lf => if leafOK lf then none else some "leafOK:tokens-of-a-leaf")) fun _ =>
+            orElseS (((filePHA n m Ps).findSome? pieceWhy).map (fun s => "piece:" ++ s)) fun _ =>
+            if !adjOK (filePHA n m Ps) then some "adjOK:a-word-runs-into-the-next-piece"
             else if !Text.isCommentTok ("//netlist name: " ++ Text.fixName n.name) then some "netlist-name-comment"
             else none
         (false, "out:" ++ why.getD "unexplained")
